@@ -176,27 +176,30 @@ class Delta:
             self.root = other
         else:
             self.root = deepcopy(other)
-        self._do_pre_process()
-        self._do_values_changed()
-        self._do_set_item_added()
-        self._do_set_item_removed()
-        self._do_type_changes()
-        # NOTE: the remove iterable action needs to happen BEFORE
-        # all the other iterables to match the reverse of order of operations in DeepDiff
-        self._do_iterable_opcodes()
-        self._do_iterable_item_removed()
-        self._do_iterable_item_added()
-        self._do_ignore_order()
-        self._do_dictionary_item_added()
-        self._do_dictionary_item_removed()
-        self._do_attribute_added()
-        self._do_attribute_removed()
-        self._do_post_process()
+        try:
+            self._do_pre_process()
+            self._do_values_changed()
+            self._do_set_item_added()
+            self._do_set_item_removed()
+            self._do_type_changes()
+            # NOTE: the remove iterable action needs to happen BEFORE
+            # all the other iterables to match the reverse of order of operations in DeepDiff
+            self._do_iterable_opcodes()
+            self._do_iterable_item_removed()
+            self._do_iterable_item_added()
+            self._do_ignore_order()
+            self._do_dictionary_item_added()
+            self._do_dictionary_item_removed()
+            self._do_attribute_added()
+            self._do_attribute_removed()
+            self._do_post_process()
 
-        other = self.root
-        # removing the reference to other
-        del self.root
-        self.reset()
+            other = self.root
+        finally:
+            # removing the reference to other, also when an error is raised:
+            # the delta must stay usable after a failed application
+            del self.root
+            self.reset()
         return other
 
     __radd__ = __add__
@@ -205,8 +208,10 @@ class Delta:
         if self._reversed_diff is None:
             self._reversed_diff = self._get_reverse_diff()
         self.diff, self._reversed_diff = self._reversed_diff, self.diff
-        result = self.__add__(other)
-        self.diff, self._reversed_diff = self._reversed_diff, self.diff
+        try:
+            result = self.__add__(other)
+        finally:
+            self.diff, self._reversed_diff = self._reversed_diff, self.diff
         return result
 
     def _raise_or_log(self, msg, level='error'):
